@@ -718,7 +718,8 @@ def string_bits(draw, pt, enc, n):
         return (bits + fill * n)[:n]
     if d and d["t"] == "term":
         t = bytes.fromhex(d["hex"])
-        how = draw(st.sampled_from(["present", "present", "present", "absent", "misaligned"]))
+        how = draw(st.sampled_from(["present", "present", "present", "absent", "misaligned"] +
+                                   (["misaligned", "misaligned"] if u > 1 else [])))
         body = enc_text(max(0, nbytes - len(t)))
         body = body.replace(t, b"") if u == 1 else body   # (u == 1 covers UTF-8 with terminators of any length)
         if how == "present":
